@@ -7,5 +7,5 @@ CONSTANTS
   RawExtra <- RawLong
   Dev <- NoDevs
   Emit = FALSE
-INVARIANTS TypeOK TextRT_Decl Utf8Too_Decl Codecs_Decl AsciiStays FunctionForm Refines Repaired
+INVARIANTS TypeOK TextRT_Decl Utf8Too_Decl Codecs_Decl AsciiStays FunctionForm Refines Repaired Distinct
 CHECK_DEADLOCK FALSE
